@@ -175,7 +175,7 @@ func init() {
 			{Name: "flat-writefaults", Weight: 2, Fn: c05Profile("flat-writefaults")},
 		},
 		Components: map[string][]string{
-			"real": {"pkg/blobstore/local: flat/hierarchical blob access, old/current/new map, both growth policies, volatile block list, allocators, hashing index", "pkg/blobstore/buffer"},
+			"real": {"pkg/blobstore/configuration new_blob_access.go (W-config runs: the store is assembled by the unmodified NewBlobAccessFromConfiguration; top-level decorators, metrics wrappers, allocator collectors)", "pkg/blobstore/local: flat/hierarchical blob access, old/current/new map, both growth policies, volatile block list, allocators, hashing index", "pkg/blobstore/buffer"},
 			"stub": {"block devices (simdisk)", "sources/sinks", "scheduling (verifsimrt)"},
 		},
 		Rule:           "a run = drawn geometry (all O,C,N in 0..3) x 1-4 clients x 10-50 operations; every successful Get / present FindMissing is a touch stamped with the allocation count at its invocation; every later probe completing with allocations <= a+O must find the object; single-client runs repeat every touch and compare device write and allocation counters; non-trivial = at least one touch and the store rotated past its initial fill; distinct = event-log hash",
